@@ -28,6 +28,16 @@ CLAIMED = {
                 "The individual resolvers and USE merging are outside this check (bounded pipeline cases only).",
         "note": "Partial: one block of correlate(); resolvers not under contract.",
     },
+    "C06": {
+        "engines": ["A", "B", "Bd"],
+        "technique": "contract-based deductive verification: VCs from the AST of the closure used_objects (decide half of get_used_entities) against the "
+                     "standard's per-name USE rule as a ground-unfolded fold; regex-language coverage of USE_RE/ONLY_RE/RENAME_RE (z3)",
+        "text": "Proved for every export table, ONLY flag and rename map: the imported table is exactly the standard's USE view (ONLY restricts, renames "
+                "apply with and without ONLY, the remote name of a renamed entity is not imported); the USE patterns accept every USE form in any letter "
+                "case. Clause parsing, export tables, re-export filtering and module ordering are covered only by a bounded run of the real pipeline on 44 "
+                "generated three-module projects (not counted).",
+        "note": "Partial: decide half + patterns.",
+    },
 }
 _NB = "no obligations built yet for this property in the current commit (planned in DESIGN.md section 6; technique not switched)"
-NOT_APPLICABLE = {p: _NB for p in ["C01", "C03", "C04", "C06", "C08", "C09", "C10", "C11", "C12", "C13", "C14", "C15", "C16", "C17", "C18", "C19", "C20"]}
+NOT_APPLICABLE = {p: _NB for p in ["C01", "C03", "C04", "C08", "C09", "C10", "C11", "C12", "C13", "C14", "C15", "C16", "C17", "C18", "C19", "C20"]}
